@@ -68,6 +68,8 @@ def main(run):
     traces = rc.histories(run, rc.ALL_GRAPHS, range(run.seed * 100, run.seed * 100 + (3 if quick else 40)), 14 if quick else 30, post=restore_all)
     traces += rc.histories(run, ['shared', 'mixed'], range(run.seed * 100 + 50, run.seed * 100 + (52 if quick else 70)), 12 if quick else 25,
                            flavour='async', concurrent=2, post=restore_all)
+    traces += rc.histories(run, ['plain', 'shared'] if quick else rc.ALL_GRAPHS, range(run.seed * 100 + 90, run.seed * 100 + 90 + (1 if quick else 8)), 12 if quick else 25,
+                           flavour='s3', post=restore_all)      # over the real S3 adapter, paged listings
     traces += stale_knowledge(run, ['shared', 'plain', 'mixed'] if quick else rc.ALL_GRAPHS, range(run.seed * 10, run.seed * 10 + (1 if quick else 4)))
     rc.validate(run, traces, CLAUSES, label='c02.histories')
     run.coverage['rule'] = ('a case is one command history (key graph x seed), one stale-knowledge scenario (key graph x cache arrangement) or one replayed TLC behaviour; non-trivial = '
